@@ -42,6 +42,10 @@ type Config struct {
 	Byz       []gpbft.ActorID
 	Options   []gpbft.Option
 	Delta     time.Duration
+	// Exponent and RebMax repeat the back-off exponent and the largest rebroadcast interval
+	// given in Options (for the stall detector of the closing phase; 0 = unknown)
+	Exponent  float64
+	RebMax    time.Duration
 	Root      *gpbft.TipSet
 	TableKind string
 }
@@ -186,7 +190,7 @@ type Stats struct {
 	MaxRound                                                                       uint64
 	Sways, SkipsRound, SkipsDecide, Rebroadcasts                                   int
 	LateCommitDecisions                                                            int
-	HijackConverges, HijackCommits, ForgedFloods, SuppVariants                     int
+	HijackConverges, HijackCommits, ForgedFloods, SuppVariants, Poisons            int
 }
 
 type tracer struct{ w *World }
